@@ -8,6 +8,7 @@ Spec == x = 0 /\ [][x' = x]_x
 Ok(ev) == CASE ev.e = "ptrop" -> PtrOpAllowed(ev)
             [] ev.e = "ptrrun" -> PtrRunAllowed(ev)
             [] ev.e = "idxrun" -> IndexRunAllowed(ev)
+            [] ev.e = "row" -> RowAllowed(ev)
             [] ev.e = "bulk" -> RangeOpAllowed(ev)
             [] OTHER -> FALSE
 CONSTANT OpenFindings     \* ids of the open entries of known_findings.json
